@@ -110,6 +110,8 @@ pub open spec fn snap_member_eff(im: Addr<RaftIndexManager>, h: SnapshotHeaderDt
         if h.member_after_consensus@.len() == 0 { None } else { Some(h.member_after_consensus@) }, Some(addr_tbl(h.node_addrs))) }
 }
 
+/// A-SNAPIMAGE for the start-up chain: every file the snapshot manager names is a snapshot image
+pub open spec fn all_snapshot_images_ok() -> bool { forall|p: Seq<char>| snap_image_ok(#[trigger] disk_at_open(p)) }
 /// C01: the end of loading is announced to the five components that wait for it
 pub open spec fn complete_effs(h: RaftDataHandler) -> Seq<Eff> {
     seq![sent(h.namespace, RaftApplyDataRequest::LoadCompleted), sent(h.sequence_db, RaftApplyDataRequest::LoadCompleted),
